@@ -34,6 +34,62 @@ func vReadersSeeContent(file []byte, c *eContent, l *eLayout, validate bool, lab
 	for _, x := range l.xor {
 		anyXor = anyXor || x
 	}
+	// (0) the raw record stream: lexer with EmitChunks, every chunk, message index, data end, summary offset and
+	// footer record parsed by the library's Parse* and compared with what the encoder laid out
+	{
+		lex, err := NewLexer(vNewSource(file), &LexerOptions{EmitChunks: true})
+		vAssert(err == nil, label+": NewLexer (raw)")
+		ci, mi, gi := -1, 0, 0
+		for {
+			tok, rec, err := lex.Next(nil)
+			if err != nil {
+				vAssert(err == io.EOF, label+": raw lexer reaches EOF")
+				break
+			}
+			switch tok {
+			case TokenChunk:
+				ci++
+				mi = 0
+				c, err := ParseChunk(rec)
+				vAssert(err == nil && ci < len(eLast.chunks), label+": chunk record parses")
+				if err == nil && ci < len(eLast.chunks) {
+					e := &eLast.chunks[ci]
+					vAssert(vAnd(c.MessageStartTime == e.startT, c.MessageEndTime == e.endT), label+": ParseChunk times")
+					vAssert(c.UncompressedSize == e.uncompressN && c.Compression == e.comp && c.UncompressedCRC == eLast.chunkCRC[ci], label+": ParseChunk size, compression, crc")
+					vAssert(len(c.Records) == len(eLast.stored[ci]) && vBytesEq(c.Records, eLast.stored[ci]), label+": ParseChunk records")
+				}
+			case TokenMessageIndex:
+				x, err := ParseMessageIndex(rec)
+				vAssert(err == nil && ci >= 0 && ci < len(eLast.msgIdx) && mi < len(eLast.msgIdx[ci]), label+": message index record parses in place")
+				if err == nil && ci >= 0 && ci < len(eLast.msgIdx) && mi < len(eLast.msgIdx[ci]) {
+					e := &eLast.msgIdx[ci][mi]
+					ents := x.Entries()
+					vAssert(x.ChannelID == e.ch && len(ents) == len(e.entries), label+": ParseMessageIndex channel and entry count")
+					for k := range ents {
+						if k < len(e.entries) {
+							vAssert(vAnd(ents[k].Timestamp == e.entries[k].t, ents[k].Offset == e.entries[k].off), label+": ParseMessageIndex entry")
+						}
+					}
+				}
+				mi++
+			case TokenDataEnd:
+				d, err := ParseDataEnd(rec)
+				vAssert(err == nil && d.DataSectionCRC == eLast.dataCRC, label+": ParseDataEnd crc")
+			case TokenSummaryOffset:
+				so, err := ParseSummaryOffset(rec)
+				vAssert(err == nil && gi < len(eLast.groups), label+": summary offset parses")
+				if err == nil && gi < len(eLast.groups) {
+					g := eLast.groups[gi]
+					vAssert(byte(so.GroupOpcode) == g.op && so.GroupStart == g.start && so.GroupLength == g.length, label+": ParseSummaryOffset fields")
+				}
+				gi++
+			case TokenFooter:
+				f, err := ParseFooter(rec)
+				vAssert(err == nil && f.SummaryStart == eLast.sumStart && f.SummaryOffsetStart == eLast.sumOffStart && f.SummaryCRC == eLast.sumCRC, label+": ParseFooter fields")
+			}
+		}
+		vAssert(ci+1 == len(eLast.chunks), label+": raw lexer saw every chunk")
+	}
 	// (1) lexer
 	evs, err := vLexEvents(vNewSource(file), &LexerOptions{ValidateChunkCRCs: validate, Decompressors: map[CompressionFormat]ResettableReader{"xor": &vXorReader{}}})
 	vAssert(err == io.EOF, label+": lexer reaches EOF")
